@@ -16,6 +16,62 @@ type tgen struct {
 	inWrap   bool // inside a template that may use { children... }
 	counts   map[string]int
 	noScript bool
+	oracle   bool // C02: every Go expression is a call of a c02oracle function with a key
+	loopVars []string
+}
+
+// key picks an oracle key from a small pool, so that the same expression is sometimes evaluated at several places.
+func (g *tgen) key() string { return fmt.Sprintf("k%d", g.r.intn(12)) }
+
+// deco wraps an expression in semantically neutral decorations.
+func (g *tgen) deco(e string) string {
+	switch g.r.intn(8) {
+	case 0:
+		return e + " // c\n"
+	case 1:
+		return e + " /* c */"
+	case 2:
+		return "(" + e + ")"
+	default:
+		return e
+	}
+}
+
+func (g *tgen) pickStr() string {
+	if !g.oracle {
+		return g.r.pick(tgStrExprs)
+	}
+	if len(g.loopVars) > 0 && g.r.chance(1, 3) {
+		return g.r.pick(g.loopVars)
+	}
+	switch g.r.intn(8) {
+	case 0:
+		return g.deco(fmt.Sprintf(`SE("%s")`, g.key()))
+	case 1:
+		return fmt.Sprintf(`S("%s") + S("%s")`, g.key(), g.key())
+	case 2:
+		return g.r.pick([]string{`"lit"`, "`raw <b>`", `"a\"b"`})
+	default:
+		return g.deco(fmt.Sprintf(`S("%s")`, g.key()))
+	}
+}
+
+func (g *tgen) pickBool() string {
+	if !g.oracle {
+		return g.r.pick(tgBoolExprs)
+	}
+	switch g.r.intn(8) {
+	case 0:
+		return fmt.Sprintf(`!B("%s")`, g.key())
+	case 1:
+		return fmt.Sprintf(`B("%s") && B("%s")`, g.key(), g.key())
+	case 2:
+		return fmt.Sprintf(`B("%s") || B("%s")`, g.key(), g.key())
+	case 3:
+		return g.r.pick([]string{"true", "false"})
+	default:
+		return fmt.Sprintf(`B("%s")`, g.key())
+	}
 }
 
 const tgenPrelude = `package x
@@ -78,7 +134,7 @@ func (g *tgen) text() string {
 
 func (g *tgen) strExpr() string {
 	g.note("stringexpr")
-	e := g.r.pick(tgStrExprs)
+	e := g.pickStr()
 	switch g.r.intn(4) {
 	case 0:
 		return "{" + e + "}"
@@ -103,27 +159,48 @@ func (g *tgen) attr(el string, ind int) string {
 		return g.r.pick([]string{"hidden", "disabled", "data-flag", "required"})
 	case k < 6:
 		g.note("attr-expr")
-		return fmt.Sprintf("%s={ %s }", g.r.pick([]string{"title", "data-v", "alt", "value", "placeholder"}), g.r.pick(tgStrExprs))
+		return fmt.Sprintf("%s={ %s }", g.r.pick([]string{"title", "data-v", "alt", "value", "placeholder"}), g.pickStr())
 	case k == 6:
 		g.note("attr-boolexpr")
-		return fmt.Sprintf("%s?={ %s }", g.r.pick([]string{"disabled", "checked", "hidden"}), g.r.pick(tgBoolExprs))
+		return fmt.Sprintf("%s?={ %s }", g.r.pick([]string{"disabled", "checked", "hidden"}), g.pickBool())
 	case k == 7:
 		g.note("attr-spread")
+		if g.oracle {
+			return fmt.Sprintf(`{ A("%s")... }`, g.key())
+		}
 		return "{ attrs... }"
 	case k == 8:
 		g.note("attr-class")
+		if g.oracle {
+			return g.r.pick([]string{fmt.Sprintf(`class={ CL("%s") }`, g.key()), fmt.Sprintf(`class={ "st", CL("%s") }`, g.key()), `class="static cls"`})
+		}
 		return g.r.pick([]string{`class={ "a", templ.KV("b", b) }`, `class={ s }`, `class={ "x " + t, box(s) }`, `class={ templ.Classes("k", t) }`, `class="static cls"`})
 	case k == 9:
 		g.note("attr-style")
+		if g.oracle {
+			return g.r.pick([]string{fmt.Sprintf(`style={ ST("%s") }`, g.key()), `style="margin:0"`})
+		}
 		return g.r.pick([]string{`style={ "color:red" }`, `style={ map[string]string{"color": s} }`, `style={ templ.KV("width", t) }`, `style="margin:0"`})
 	case k == 10:
 		g.note("attr-url")
+		if g.oracle {
+			if el == "form" {
+				return fmt.Sprintf(`action={ U("%s") }`, g.key())
+			}
+			if el != "a" {
+				return fmt.Sprintf(`href={ S("%s") }`, g.key())
+			}
+			return g.r.pick([]string{fmt.Sprintf(`href={ U("%s") }`, g.key()), `href="/static"`})
+		}
 		if el == "form" {
 			return "action={ u }"
 		}
 		return g.r.pick([]string{"href={ u }", "href={ templ.URL(s) }", "href={ p.Link }", `href="/static"`})
 	case k == 11:
 		g.note("attr-script")
+		if g.oracle {
+			return g.r.pick([]string{fmt.Sprintf(`onclick={ H("%s") }`, g.key()), `onclick="alert(1)"`, fmt.Sprintf(`onmouseover={ H("%s") }`, g.key()), fmt.Sprintf(`hx-on::click={ H("%s") }`, g.key())})
+		}
 		return g.r.pick([]string{"onclick={ hello(s) }", `onclick="alert(1)"`, "onmouseover={ hello(t) }", `hx-on::click={ hello(s) }`})
 	case k < 15 && g.depth > 0:
 		g.note("attr-conditional")
@@ -135,9 +212,9 @@ func (g *tgen) attr(el string, ind int) string {
 		}
 		g.depth++
 		if g.r.chance(1, 3) && els == "" && !strings.Contains(thn, "\n") {
-			return fmt.Sprintf("if %s { %s }", g.r.pick(tgBoolExprs), thn)
+			return fmt.Sprintf("if %s { %s }", g.pickBool(), thn)
 		}
-		return fmt.Sprintf("if %s {\n%s%s\n%s}%s", g.r.pick(tgBoolExprs), g.indent(ind+2), thn, g.indent(ind+1), els)
+		return fmt.Sprintf("if %s {\n%s%s\n%s}%s", g.pickBool(), g.indent(ind+2), thn, g.indent(ind+1), els)
 	default:
 		g.note("attr-const")
 		return `role="x"`
@@ -219,6 +296,14 @@ func (g *tgen) element(ind int) (string, bool) {
 			return "<hr/>", false
 		}
 		g.note("element-raw")
+		if g.oracle {
+			return g.r.pick([]string{
+				"<style>p { color: red; } /* { not go } */</style>",
+				"<script>var a = 1; if (a < 2) { a = \"</p>\"; }</script>",
+				fmt.Sprintf("<script>const v = {{ J(\"%s\") }}; const w = '{{ J(\"%s\") }}'; const q = `{{ J(\"%s\") }}`;</script>", g.key(), g.key(), g.key()),
+				fmt.Sprintf("<script type=\"text/javascript\" onload={ H(\"%s\") }>let z = {{ J(\"%s\") }}\n</script>", g.key(), g.key()),
+			}), true
+		}
 		return g.r.pick([]string{
 			"<style>p { color: red; } /* { not go } */</style>",
 			"<script>var a = 1; if (a < 2) { a = \"</p>\"; }</script>",
@@ -266,10 +351,10 @@ func (g *tgen) node(ind int) (string, bool) {
 	case k < 17:
 		g.note("if")
 		g.depth--
-		s := fmt.Sprintf("if %s {\n%s%s}", g.r.pick(tgBoolExprs), g.body(ind+1, 1+g.r.intn(2)), g.closer(ind))
+		s := fmt.Sprintf("if %s {\n%s%s}", g.pickBool(), g.body(ind+1, 1+g.r.intn(2)), g.closer(ind))
 		if g.r.chance(1, 3) {
 			g.note("else-if")
-			s += fmt.Sprintf(" else if %s {\n%s\n%s}", g.r.pick(tgBoolExprs), g.body(ind+1, 1), g.indent(ind))
+			s += fmt.Sprintf(" else if %s {\n%s\n%s}", g.pickBool(), g.body(ind+1, 1), g.indent(ind))
 		}
 		if g.r.chance(1, 2) {
 			g.note("else")
@@ -281,18 +366,46 @@ func (g *tgen) node(ind int) (string, bool) {
 		g.note("for")
 		g.depth--
 		hdr := g.r.pick([]string{"for _, item := range items", "for i := 0; i < n; i++", "for i, item := range items", "for range 2"})
+		saved := g.loopVars
+		if g.oracle {
+			k := g.key()
+			hdr = g.r.pick([]string{fmt.Sprintf(`for _, item := range IT("%s")`, k), "for i := 0; i < 2; i++", fmt.Sprintf(`for i, item := range IT("%s")`, k), "for range 2"})
+			g.loopVars = nil // shadowing would need scoping in the value tables: inner loops rebind the same names
+			if strings.Contains(hdr, "item") {
+				g.loopVars = append(g.loopVars, "item")
+			}
+			if strings.Contains(hdr, "for i") {
+				g.loopVars = append(g.loopVars, "fmt.Sprint(i)")
+			}
+		}
 		inner := g.body(ind+1, 1+g.r.intn(2))
 		if strings.Contains(hdr, "item") && g.r.chance(1, 2) {
 			inner += "\n" + g.indent(ind+1) + "<li>{ item }</li>"
 		}
+		if g.oracle {
+			// keep the Go compiler quiet about unused loop variables
+			if strings.Contains(hdr, "item") {
+				inner = g.indent(ind+1) + "{{ _ = item }}\n" + inner
+			}
+			if strings.Contains(hdr, "for i") {
+				inner = g.indent(ind+1) + "{{ _ = i }}\n" + inner
+			}
+		}
+		g.loopVars = saved
 		g.depth++
 		return fmt.Sprintf("%s {\n%s%s}", hdr, inner, g.closer(ind)), true
 	case k < 21:
 		g.note("switch")
 		g.depth--
 		s := fmt.Sprintf("switch %s {\n", g.r.pick([]string{"s", "n", "t + s", "len(items)"}))
+		caseLits := []string{`"a"`, `"b", "c"`, "1", "2, 3"}
+		if g.oracle {
+			s = fmt.Sprintf("switch S(\"%s\") {\n", g.key())
+			caseLits = []string{`"a"`, `"b", "c"`, `"d"`, `"x y"`}
+		}
+		first := g.r.intn(len(caseLits))
 		for i := 1 + g.r.intn(2); i > 0; i-- {
-			s += fmt.Sprintf("%scase %s:\n%s\n", g.indent(ind+1), g.r.pick([]string{`"a"`, `"b", "c"`, "1", "2, 3"}), g.body(ind+2, 1))
+			s += fmt.Sprintf("%scase %s:\n%s\n", g.indent(ind+1), caseLits[(first+i)%len(caseLits)], g.body(ind+2, 1))
 		}
 		if g.r.chance(1, 2) {
 			s += fmt.Sprintf("%sdefault:\n%s\n", g.indent(ind+1), g.body(ind+2, 1))
@@ -302,6 +415,22 @@ func (g *tgen) node(ind int) (string, bool) {
 	case k < 24:
 		g.depth--
 		defer func() { g.depth++ }()
+		if g.oracle {
+			switch g.r.intn(4) {
+			case 0:
+				g.note("call")
+				return fmt.Sprintf(`@C("%s")`, g.key()), true
+			case 1:
+				g.note("call-legacy")
+				return fmt.Sprintf(`{! C("%s") }`, g.key()), true
+			case 2:
+				g.note("call-block-inline")
+				return fmt.Sprintf("@C(\"%s\") {\n%s%s\n%s}", g.key(), g.indent(ind+1), g.text(), g.indent(ind)), true
+			default:
+				g.note("call-block")
+				return fmt.Sprintf("@C(\"%s\") {\n%s\n%s}", g.key(), g.body(ind+1, 1+g.r.intn(2)), g.indent(ind)), true
+			}
+		}
 		switch g.r.intn(6) {
 		case 0:
 			g.note("call")
@@ -330,6 +459,9 @@ func (g *tgen) node(ind int) (string, bool) {
 		return g.strExpr(), false
 	case k == 25:
 		g.note("gocode")
+		if g.oracle {
+			return g.r.pick([]string{fmt.Sprintf(`{{ _ = G("%s") }}`, g.key()), fmt.Sprintf("{{\n%s_ = G(\"%s\")\n%s}}", g.indent(ind+1), g.key(), g.indent(ind)), "{{ }}"}), true
+		}
 		return g.r.pick([]string{"{{ x := s + t }}", "{{ _ = n }}", "{{ if b { _ = n } }}", "{{ x := 1 // c\n" + g.indent(ind) + "}}", "{{ for i := 0; i < n; i++ { _ = i } }}", "{{\n" + g.indent(ind+1) + "y := len(items)\n" + g.indent(ind+1) + "_ = y\n" + g.indent(ind) + "}}"}), true
 	case k == 26:
 		g.note("htmlcomment")
